@@ -177,10 +177,10 @@ pub fn plan(p: u32, tier: &str) -> Vec<Run> {
             add(alone4(), families::slots_each_alone(4));
             add(split("split-O", true), families::split_outputs(Kind::O, false));
             add(split("split-E", true), families::split_outputs(Kind::E, false));
-            add(late("latepair", true), families::late_pair());
-            add(late("bigshapes", true), families::big_shapes());
-            add(late("ephtrees", true), families::eph_trees());
-            add(late("ephtrees3", true), families::eph_trees3());
+            add(late("latepair", true), families::with_declaration_variants(families::late_pair()));
+            add(late("bigshapes", true), families::with_declaration_variants(families::big_shapes()));
+            add(late("ephtrees", true), families::with_declaration_variants(families::eph_trees()));
+            add(late("ephtrees3", true), families::with_declaration_variants(families::eph_trees3()));
             add(chains(true), families::chains(6));
             let mut cm = chains(true);
             cm.name = "chainsm4".into();
@@ -235,10 +235,10 @@ pub fn plan(p: u32, tier: &str) -> Vec<Run> {
             add(deep3("S3D3-f010", 3, vec![false, true, false]), families::slots(3));
             add(late("late2x", true), families::late_gadget(2, true));
             add(late3u(1), families::late3xu_oe());
-            add(late("latepair", true), families::late_pair());
-            add(late("bigshapes", true), families::big_shapes());
-            add(late("ephtrees", true), families::eph_trees());
-            add(late("ephtrees3", true), families::eph_trees3());
+            add(late("latepair", true), families::with_declaration_variants(families::late_pair()));
+            add(late("bigshapes", true), families::with_declaration_variants(families::big_shapes()));
+            add(late("ephtrees", true), families::with_declaration_variants(families::eph_trees()));
+            add(late("ephtrees3", true), families::with_declaration_variants(families::eph_trees3()));
             add(chains(true), families::chains(6));
             let mut cm = chains(true);
             cm.name = "chainsm4".into();
@@ -295,10 +295,10 @@ pub fn plan(p: u32, tier: &str) -> Vec<Run> {
             add(split("split-O", true), families::split_outputs(Kind::O, false));
             add(split("split-E", true), families::split_outputs(Kind::E, false));
             add(late("late2x", true), families::late_gadget(2, true));
-            add(late("latepair", true), families::late_pair());
-            add(late("bigshapes", true), families::big_shapes());
-            add(late("ephtrees", true), families::eph_trees());
-            add(late("ephtrees3", true), families::eph_trees3());
+            add(late("latepair", true), families::with_declaration_variants(families::late_pair()));
+            add(late("bigshapes", true), families::with_declaration_variants(families::big_shapes()));
+            add(late("ephtrees", true), families::with_declaration_variants(families::eph_trees()));
+            add(late("ephtrees3", true), families::with_declaration_variants(families::eph_trees3()));
             add(chains(true), families::chains(6));
             let mut cm = chains(true);
             cm.name = "chainsm4".into();
@@ -377,13 +377,13 @@ pub fn plan(p: u32, tier: &str) -> Vec<Run> {
             add(s("kindswap2-D3", 3, m), families::slots_kindswap(2));
             add(late("late2x", true), families::late_gadget(2, true));
             add(late3u(2), families::late3xu_oe());
-            add(late("latepair", true), families::late_pair());
+            add(late("latepair", true), families::with_declaration_variants(families::late_pair()));
             let mut l4 = late("late4row-k1", true);
             l4.edit_bound = Some(1);
             add(l4, families::late4_row());
-            add(late("bigshapes", true), families::big_shapes());
-            add(late("ephtrees", true), families::eph_trees());
-            add(late("ephtrees3", true), families::eph_trees3());
+            add(late("bigshapes", true), families::with_declaration_variants(families::big_shapes()));
+            add(late("ephtrees", true), families::with_declaration_variants(families::eph_trees()));
+            add(late("ephtrees3", true), families::with_declaration_variants(families::eph_trees3()));
             add(chains(true), families::chains(6));
             let mut cm = chains(true);
             cm.name = "chainsm4".into();
@@ -452,13 +452,13 @@ pub fn plan(p: u32, tier: &str) -> Vec<Run> {
             add(deep3("S3D3-f010", 3, vec![false, true, false]), families::slots(3));
             add(late("late2x", true), families::late_gadget(2, true));
             add(late3u(2), families::late3xu_oe());
-            add(late("latepair", true), families::late_pair());
+            add(late("latepair", true), families::with_declaration_variants(families::late_pair()));
             let mut l4 = late("late4row-k1", true);
             l4.edit_bound = Some(1);
             add(l4, families::late4_row());
-            add(late("bigshapes", true), families::big_shapes());
-            add(late("ephtrees", true), families::eph_trees());
-            add(late("ephtrees3", true), families::eph_trees3());
+            add(late("bigshapes", true), families::with_declaration_variants(families::big_shapes()));
+            add(late("ephtrees", true), families::with_declaration_variants(families::eph_trees()));
+            add(late("ephtrees3", true), families::with_declaration_variants(families::eph_trees3()));
             add(chains(true), families::chains(6));
             let mut cm = chains(true);
             cm.name = "chainsm4".into();
@@ -514,13 +514,13 @@ pub fn plan(p: u32, tier: &str) -> Vec<Run> {
             add(s4d2ff(), families::slots(4));
             add(late("late2x", true), families::late_gadget(2, true));
             add(late3u(2), families::late3xu_oe());
-            add(late("latepair", true), families::late_pair());
+            add(late("latepair", true), families::with_declaration_variants(families::late_pair()));
             let mut l4 = late("late4row-k1", true);
             l4.edit_bound = Some(1);
             add(l4, families::late4_row());
-            add(late("bigshapes", true), families::big_shapes());
-            add(late("ephtrees", true), families::eph_trees());
-            add(late("ephtrees3", true), families::eph_trees3());
+            add(late("bigshapes", true), families::with_declaration_variants(families::big_shapes()));
+            add(late("ephtrees", true), families::with_declaration_variants(families::eph_trees()));
+            add(late("ephtrees3", true), families::with_declaration_variants(families::eph_trees3()));
             add(chains(true), families::chains(6));
             let mut cm = chains(true);
             cm.name = "chainsm4".into();
@@ -651,10 +651,10 @@ pub fn plan(p: u32, tier: &str) -> Vec<Run> {
             // change of behaviour the engine is not told about, so the value-based oracles do not apply)
             add(s("kindswap2-D3", 3, m), families::slots_kindswap(2));
             add(late("late2x", true), families::late_gadget(2, true));
-            add(late("latepair", true), families::late_pair());
-            add(late("bigshapes", true), families::big_shapes());
-            add(late("ephtrees", true), families::eph_trees());
-            add(late("ephtrees3", true), families::eph_trees3());
+            add(late("latepair", true), families::with_declaration_variants(families::late_pair()));
+            add(late("bigshapes", true), families::with_declaration_variants(families::big_shapes()));
+            add(late("ephtrees", true), families::with_declaration_variants(families::eph_trees()));
+            add(late("ephtrees3", true), families::with_declaration_variants(families::eph_trees3()));
             add(chains(true), families::chains(6));
             let mut cm = chains(true);
             cm.name = "chainsm4".into();
@@ -763,10 +763,10 @@ pub fn plan(p: u32, tier: &str) -> Vec<Run> {
             add(s4d2ff(), families::slots(4));
             add(late("late2x", true), families::late_gadget(2, true));
             add(late3u(1), families::late3xu_oe());
-            add(late("latepair", true), families::late_pair());
-            add(late("bigshapes", true), families::big_shapes());
-            add(late("ephtrees", true), families::eph_trees());
-            add(late("ephtrees3", true), families::eph_trees3());
+            add(late("latepair", true), families::with_declaration_variants(families::late_pair()));
+            add(late("bigshapes", true), families::with_declaration_variants(families::big_shapes()));
+            add(late("ephtrees", true), families::with_declaration_variants(families::eph_trees()));
+            add(late("ephtrees3", true), families::with_declaration_variants(families::eph_trees3()));
             add(chains(true), families::chains(6));
             let mut cm = chains(true);
             cm.name = "chainsm4".into();
@@ -919,13 +919,13 @@ pub fn plan(p: u32, tier: &str) -> Vec<Run> {
             add(s("kindswap2-D3", 3, m), families::slots_kindswap(2));
             add(late("late2x", true), families::late_gadget(2, true));
             add(late3u(2), families::late3xu_oe());
-            add(late("latepair", true), families::late_pair());
+            add(late("latepair", true), families::with_declaration_variants(families::late_pair()));
             let mut l4 = late("late4row-k1", true);
             l4.edit_bound = Some(1);
             add(l4, families::late4_row());
-            add(late("bigshapes", true), families::big_shapes());
-            add(late("ephtrees", true), families::eph_trees());
-            add(late("ephtrees3", true), families::eph_trees3());
+            add(late("bigshapes", true), families::with_declaration_variants(families::big_shapes()));
+            add(late("ephtrees", true), families::with_declaration_variants(families::eph_trees()));
+            add(late("ephtrees3", true), families::with_declaration_variants(families::eph_trees3()));
             add(chains(true), families::chains(6));
             let mut cm = chains(true);
             cm.name = "chainsm4".into();
